@@ -1,4 +1,372 @@
+/- Lemmas/C06.lean — index tables of the packed polynomial layout: enumeration, counting, 6-bit packing, encode/decode. -/
 import Mathlib.Data.List.Basic
+import Mathlib.Data.List.Nodup
+import Mathlib.Data.List.Range
+import Mathlib.Data.List.GetD
+import Mathlib.Data.Nat.Bitwise
+import Mathlib.Data.Nat.Choose.Basic
+import Mathlib.Tactic.Ring
+import Mathlib.Tactic.Linarith
 import HitenModel.Core.C06
+
 namespace HitenModel.C06
+
+/-! ### the nested-loop enumeration lists every multi-index of degree `d` exactly once -/
+
+theorem mem_enum : ∀ (n d : Nat) (v : List Nat), v ∈ enum n d ↔ (v.length = n ∧ v.sum = d)
+  | 0, d, v => by
+    unfold enum; split
+    · subst_vars
+      constructor
+      · intro h; rw [List.mem_singleton] at h; subst h; exact ⟨rfl, rfl⟩
+      · rintro ⟨h, _⟩; rw [List.length_eq_zero_iff.mp h]; exact List.mem_singleton.mpr rfl
+    · rename_i h
+      constructor
+      · intro hv; cases hv
+      · rintro ⟨hl, hs⟩
+        rw [List.length_eq_zero_iff.mp hl] at hs; exact absurd hs.symm h
+  | 1, d, v => by
+    unfold enum; simp; constructor
+    · rintro rfl; simp
+    · rintro ⟨hl, hs⟩
+      obtain ⟨a, rfl⟩ := List.length_eq_one_iff.mp hl
+      simp at hs; simp [hs]
+  | (n+2), d, v => by
+    unfold enum
+    simp only [List.mem_flatMap, List.mem_reverse, List.mem_range, List.mem_map]
+    constructor
+    · rintro ⟨k, hk, w, hw, rfl⟩
+      have := (mem_enum (n+1) (d-k) w).mp hw
+      simp [this.1, this.2]; omega
+    · rintro ⟨hl, hs⟩
+      match v, hl with
+      | k :: w, hl =>
+        simp at hs hl
+        refine ⟨k, by omega, w, ?_, rfl⟩
+        exact (mem_enum (n+1) (d-k) w).mpr ⟨hl, by omega⟩
+
+theorem nodup_enum : ∀ (n d : Nat), (enum n d).Nodup
+  | 0, d => by unfold enum; split <;> simp
+  | 1, d => by unfold enum; simp
+  | (n+2), d => by
+    unfold enum
+    rw [List.nodup_flatMap]
+    constructor
+    · intro k _
+      exact (nodup_enum (n+1) (d-k)).map (fun a b h => by simpa using h)
+    · have hnd : ((List.range (d+1)).reverse).Nodup := List.nodup_reverse.mpr List.nodup_range
+      refine hnd.pairwise_of_forall_ne ?_
+      intro a _ b _ hab
+      simp only [Function.onFun, List.disjoint_left, List.mem_map]
+      rintro v ⟨w, _, rfl⟩ ⟨w', _, h⟩
+      simp at h; exact hab h.1.symm
+
+/-! ### counting: `psi[6,d] = C(d+5,5)` = number of slots -/
+
+theorem length_enum_step (n d : Nat) :
+    (enum (n+2) (d+1)).length = (enum (n+2) d).length + (enum (n+1) (d+1)).length := by
+  conv_lhs => unfold enum
+  rw [List.range_succ_eq_map, List.reverse_cons, List.flatMap_append, List.length_append]
+  congr 1
+  · conv_rhs => unfold enum
+    rw [← List.map_reverse, List.flatMap_map]
+    simp only [List.length_flatMap, List.length_map]
+    congr 1
+    apply List.map_congr_left
+    intro k _
+    simp
+  · simp
+
+theorem length_enum : ∀ (n d : Nat), (enum (n+1) d).length = Nat.choose (d+n) n
+  | 0, d => by simp [enum]
+  | n+1, 0 => by
+    have ih := length_enum n 0
+    unfold enum
+    simp at ih ⊢
+    exact ih
+  | n+1, d+1 => by
+    rw [length_enum_step, length_enum (n+1) d, length_enum n (d+1)]
+    have : d + 1 + (n + 1) = (d + n + 1) + 1 := by omega
+    rw [this, Nat.choose_succ_succ (d+n+1) n]
+    have e1 : d + (n+1) = d + n + 1 := by omega
+    have e2 : d + 1 + n = d + n + 1 := by omega
+    rw [e1, e2, Nat.succ_eq_add_one]; omega
+
+theorem combGo_choose (n : Nat) : ∀ (s j : Nat), j + s ≤ n → combGo n s (j+1) (Nat.choose n j) = Nat.choose n (j+s)
+  | 0, j, _ => rfl
+  | s+1, j, h => by
+    unfold combGo
+    have : Nat.choose n j * (n - (j+1) + 1) / (j+1) = Nat.choose n (j+1) := by
+      have h1 : n - (j+1) + 1 = n - j := by omega
+      rw [h1, ← Nat.choose_succ_right_eq, Nat.mul_div_cancel _ (Nat.succ_pos j)]
+    rw [this, combGo_choose n s (j+1) (by omega)]; congr 1; omega
+
+theorem comb_eq_choose (n k : Nat) : comb n k = Nat.choose n k := by
+  unfold comb
+  split
+  · rename_i h; exact (Nat.choose_eq_zero_of_lt h).symm
+  · rename_i h
+    split
+    · rename_i h2; rcases h2 with rfl | rfl <;> simp
+    · rename_i h2
+      simp only
+      split
+      · rename_i h3
+        split
+        · omega
+        · have := combGo_choose n (n-k) 0 (by omega)
+          simp at this; rw [this]; exact Nat.choose_symm (by omega)
+      · split
+        · omega
+        · have := combGo_choose n k 0 (by omega)
+          simpa using this
+
+theorem psi_succ (i d : Nat) : psi (i+1) d = Nat.choose (d+i) i := by
+  unfold psi; simp [comb_eq_choose]
+
+theorem psi6_eq_length (d : Nat) : psi 6 d = (clmoModel d).length := by
+  rw [psi_succ 5 d]; unfold clmoModel; rw [List.length_map, length_enum 5 d]
+
+
+/-! ### 6-bit packing -/
+
+theorem or_shift_add (a b : Nat) (i : Nat) (h : a < 2 ^ i) : a ||| (b <<< i) = a + b * 2 ^ i := by
+  rw [Nat.shiftLeft_eq, Nat.or_comm, Nat.mul_comm, ← Nat.two_pow_add_eq_or_of_lt h, Nat.add_comm]
+
+theorem and63 (x : Nat) : x &&& 0x3F = x % 64 := by
+  have := Nat.and_two_pow_sub_one_eq_mod x 6
+  simpa using this
+
+theorem pack_arith (k0 k1 k2 k3 k4 k5 : Nat) (h1 : k1 < 64) (h2 : k2 < 64) (h3 : k3 < 64) (h4 : k4 < 64) (h5 : k5 < 64) :
+    pack [k0, k1, k2, k3, k4, k5] = k1 + k2 * 64 + k3 * 4096 + k4 * 262144 + k5 * 16777216 := by
+  unfold pack
+  simp only [List.getD_cons_succ, List.getD_cons_zero, and63]
+  rw [Nat.mod_eq_of_lt h1, Nat.mod_eq_of_lt h2, Nat.mod_eq_of_lt h3, Nat.mod_eq_of_lt h4, Nat.mod_eq_of_lt h5]
+  rw [or_shift_add _ _ 6 (by omega), or_shift_add _ _ 12 (by omega), or_shift_add _ _ 18 (by omega), or_shift_add _ _ 24 (by omega)]
+  omega
+
+theorem decodePacked_arith (d p : Nat) :
+    decodePacked d p = [d - (p % 64 + p / 64 % 64 + p / 4096 % 64 + p / 262144 % 64 + p / 16777216 % 64),
+      p % 64, p / 64 % 64, p / 4096 % 64, p / 262144 % 64, p / 16777216 % 64] := by
+  unfold decodePacked
+  simp only [and63, Nat.shiftRight_eq_div_pow]
+
+theorem decodePacked_of_arith (d k0 k1 k2 k3 k4 k5 : Nat) (h1 : k1 < 64) (h2 : k2 < 64) (h3 : k3 < 64) (h4 : k4 < 64) (h5 : k5 < 64)
+    (hs : k0 + k1 + k2 + k3 + k4 + k5 = d) :
+    decodePacked d (k1 + k2 * 64 + k3 * 4096 + k4 * 262144 + k5 * 16777216) = [k0, k1, k2, k3, k4, k5] := by
+  rw [decodePacked_arith]
+  have e1 : (k1 + k2 * 64 + k3 * 4096 + k4 * 262144 + k5 * 16777216) % 64 = k1 := by omega
+  have e2 : (k1 + k2 * 64 + k3 * 4096 + k4 * 262144 + k5 * 16777216) / 64 % 64 = k2 := by omega
+  have e3 : (k1 + k2 * 64 + k3 * 4096 + k4 * 262144 + k5 * 16777216) / 4096 % 64 = k3 := by omega
+  have e4 : (k1 + k2 * 64 + k3 * 4096 + k4 * 262144 + k5 * 16777216) / 262144 % 64 = k4 := by omega
+  have e5 : (k1 + k2 * 64 + k3 * 4096 + k4 * 262144 + k5 * 16777216) / 16777216 % 64 = k5 := by omega
+  rw [e1, e2, e3, e4, e5]
+  congr 1
+  omega
+
+/-- a list of length 6 is `[k0,…,k5]` -/
+theorem length_six {k : List Nat} (h : k.length = 6) : ∃ k0 k1 k2 k3 k4 k5, k = [k0, k1, k2, k3, k4, k5] := by
+  match k, h with
+  | [k0, k1, k2, k3, k4, k5], _ => exact ⟨k0, k1, k2, k3, k4, k5, rfl⟩
+
+/-- `unpack ∘ pack = id` for exponents ≤ 63 (the degree argument being the true total degree) -/
+theorem decodePacked_pack {k : List Nat} (hl : k.length = 6) (hb : ∀ x ∈ k.tail, x ≤ 63) :
+    decodePacked k.sum (pack k) = k := by
+  obtain ⟨k0, k1, k2, k3, k4, k5, rfl⟩ := length_six hl
+  simp only [List.tail_cons, List.mem_cons, List.not_mem_nil, or_false, forall_eq_or_imp, forall_eq] at hb
+  obtain ⟨h1, h2, h3, h4, h5⟩ := hb
+  rw [pack_arith k0 k1 k2 k3 k4 k5 (by omega) (by omega) (by omega) (by omega) (by omega)]
+  apply decodePacked_of_arith <;> first | omega | (simp; omega)
+
+theorem le_sum_of_mem : ∀ {l : List Nat} {x : Nat}, x ∈ l → x ≤ l.sum
+  | [], _, h => by cases h
+  | y :: ys, x, h => by
+    rcases List.mem_cons.mp h with rfl | h
+    · simp
+    · have := le_sum_of_mem h; simp; omega
+
+/-- members of the enumeration of degree `d ≤ 63` have all exponents ≤ 63 -/
+theorem enum_bound {d : Nat} {k : List Nat} (hk : k ∈ enum 6 d) : ∀ x ∈ k, x ≤ d := by
+  intro x hx
+  have := ((mem_enum 6 d k).mp hk).2
+  have := le_sum_of_mem hx
+  omega
+
+theorem decodePacked_pack_enum {d : Nat} (hd : d ≤ 63) {k : List Nat} (hk : k ∈ enum 6 d) :
+    decodePacked d (pack k) = k := by
+  have h := (mem_enum 6 d k).mp hk
+  have := decodePacked_pack h.1 (fun x hx => by
+    have := enum_bound hk x (List.mem_of_mem_tail hx); omega)
+  rwa [h.2] at this
+
+theorem pack_injOn_enum {d : Nat} (hd : d ≤ 63) {a b : List Nat} (ha : a ∈ enum 6 d) (hb : b ∈ enum 6 d)
+    (h : pack a = pack b) : a = b := by
+  rw [← decodePacked_pack_enum hd ha, ← decodePacked_pack_enum hd hb, h]
+
+theorem clmoModel_nodup {d : Nat} (hd : d ≤ 63) : (clmoModel d).Nodup := by
+  unfold clmoModel
+  exact List.Nodup.map_on (fun a ha b hb h => pack_injOn_enum hd ha hb h) (nodup_enum 6 d)
+
+/-! ### findPos -/
+
+theorem findPos_ge {x : Nat} : ∀ {l : List Nat} {s i : Nat}, findPos x l s = some i → s ≤ i
+  | [], _, _, h => by simp [findPos] at h
+  | y :: ys, s, i, h => by
+    unfold findPos at h
+    split at h
+    · simp at h; omega
+    · have := findPos_ge h; omega
+
+theorem findPos_some {x : Nat} : ∀ {l : List Nat} {s i : Nat}, findPos x l s = some i → l[i - s]? = some x
+  | [], _, _, h => by simp [findPos] at h
+  | y :: ys, s, i, h => by
+    unfold findPos at h
+    split at h
+    · rename_i hy; simp at h; subst h; simp [hy]
+    · have h1 := findPos_ge h
+      have h2 := findPos_some h
+      have : i - s = (i - (s + 1)) + 1 := by omega
+      rw [this]; simpa using h2
+
+theorem findPos_none {x : Nat} : ∀ {l : List Nat} {s : Nat}, findPos x l s = none ↔ x ∉ l
+  | [], _ => by simp [findPos]
+  | y :: ys, s => by
+    unfold findPos
+    split
+    · rename_i hy; simp [hy]
+    · rename_i hy
+      rw [findPos_none]; simp; intro _; exact fun h => hy h.symm
+
+theorem findPos_nodup : ∀ {l : List Nat} (_ : l.Nodup) {i : Nat} (hi : i < l.length) (s : Nat), findPos l[i] l s = some (s + i)
+  | [], _, i, hi, _ => by simp at hi
+  | y :: ys, hn, 0, _, s => by simp [findPos]
+  | y :: ys, hn, i + 1, hi, s => by
+    have hn' := List.nodup_cons.mp hn
+    unfold findPos
+    have : y ≠ (y :: ys)[i + 1] := by
+      intro h; apply hn'.1; rw [h]; simp
+    rw [if_neg this]
+    simp only [List.getElem_cons_succ]
+    rw [findPos_nodup hn'.2 (by simpa using hi) (s + 1)]
+    congr 1; omega
+
+/-! ### the tables: `decode`/`encode` are mutually inverse -/
+
+theorem mkTables_length (D : Nat) : (mkTables D).length = D + 1 := by simp [mkTables]
+
+theorem mkTables_getD {D d : Nat} (h : d ≤ D) : (mkTables D).getD d [] = clmoModel d := by
+  unfold mkTables
+  rw [List.getD_eq_getElem?_getD, List.getElem?_map, List.getElem?_range (by omega)]
+  rfl
+
+theorem clmoModel_getD {d i : Nat} (hi : i < (enum 6 d).length) : (clmoModel d).getD i 0 = pack ((enum 6 d)[i]) := by
+  unfold clmoModel
+  rw [List.getD_eq_getElem?_getD, List.getElem?_map, List.getElem?_eq_getElem hi]
+  rfl
+
+/-- `decode` reads back the `i`-th multi-index of the enumeration -/
+theorem decode_table {D d i : Nat} (hD : D ≤ 63) (hd : d ≤ D) (hi : i < (enum 6 d).length) :
+    decode (mkTables D) i d = (enum 6 d)[i] := by
+  unfold decode
+  rw [mkTables_getD hd, clmoModel_getD hi]
+  exact decodePacked_pack_enum (by omega) (List.getElem_mem hi)
+
+/-- `encode` of the `i`-th multi-index of the enumeration is `i` -/
+theorem encode_table {D d i : Nat} (hD : D ≤ 63) (hd : d ≤ D) (hi : i < (enum 6 d).length) :
+    encode (mkTables D) ((enum 6 d)[i]) d = some i := by
+  unfold encode
+  rw [mkTables_length, if_pos (by omega), mkTables_getD hd]
+  have hn := clmoModel_nodup (d := d) (by omega)
+  have hi' : i < (clmoModel d).length := by unfold clmoModel; simpa using hi
+  have := findPos_nodup hn hi' 0
+  have e : (clmoModel d)[i] = pack ((enum 6 d)[i]) := by
+    have := clmoModel_getD hi
+    rw [List.getD_eq_getElem?_getD, List.getElem?_eq_getElem hi'] at this
+    simpa using this
+  rw [e] at this; simpa using this
+
+theorem tail_decodePacked (d d' p : Nat) : (decodePacked d p).tail = (decodePacked d' p).tail := by
+  simp [decodePacked]
+
+/-- `pack` determines the five stored exponents (when they are ≤ 63) -/
+theorem pack_tail_inj {a b : List Nat} (ha : a.length = 6) (hb : b.length = 6) (ha' : ∀ x ∈ a.tail, x ≤ 63)
+    (hb' : ∀ x ∈ b.tail, x ≤ 63) (h : pack a = pack b) : a.tail = b.tail := by
+  have h1 := decodePacked_pack ha ha'
+  have h2 := decodePacked_pack hb hb'
+  rw [← h1, ← h2, h]
+  exact tail_decodePacked _ _ _
+
+theorem pack_head_irrelevant (x y : Nat) (t : List Nat) : pack (x :: t) = pack (y :: t) := by
+  simp [pack]
+
+/-- every multi-index of degree `d` (six exponents summing to `d`) has a slot, `encode` finds it and `decode` returns
+the multi-index -/
+theorem encode_of_degree {D d : Nat} (hD : D ≤ 63) (hd : d ≤ D) {k : List Nat} (hl : k.length = 6) (hs : k.sum = d) :
+    ∃ i, i < psi 6 d ∧ encode (mkTables D) k d = some i ∧ decode (mkTables D) i d = k := by
+  have hk : k ∈ enum 6 d := (mem_enum 6 d k).mpr ⟨hl, hs⟩
+  obtain ⟨i, hi, rfl⟩ := List.getElem_of_mem hk
+  refine ⟨i, ?_, encode_table hD hd hi, decode_table hD hd hi⟩
+  rw [psi6_eq_length]; unfold clmoModel; simpa using hi
+
+/-- what `encode` returns in general: it ignores `k[0]`, so the slot it finds is the one of `(degree − Σ tail) :: tail` -/
+theorem encode_some_decode {D d : Nat} (hD : D ≤ 63) (hd : d ≤ D) {k : List Nat} (hl : k.length = 6)
+    (hb : ∀ x ∈ k.tail, x ≤ 63) {i : Nat} (h : encode (mkTables D) k d = some i) :
+    i < psi 6 d ∧ decode (mkTables D) i d = (d - k.tail.sum) :: k.tail := by
+  unfold encode at h
+  rw [mkTables_length, if_pos (by omega), mkTables_getD hd] at h
+  have h1 := findPos_some h
+  simp only [Nat.sub_zero] at h1
+  have hi : i < (clmoModel d).length := by
+    by_contra hc
+    rw [List.getElem?_eq_none (by omega)] at h1; cases h1
+  have hi' : i < (enum 6 d).length := by unfold clmoModel at hi; simpa using hi
+  have e : (clmoModel d)[i]? = some (pack ((enum 6 d)[i])) := by unfold clmoModel; simp [hi']
+  rw [e] at h1
+  have hp : pack ((enum 6 d)[i]) = pack k := by simpa using h1
+  have hm := List.getElem_mem hi'
+  have hmm := (mem_enum 6 d _).mp hm
+  have ht := pack_tail_inj hmm.1 hl (fun x hx => by
+    have := enum_bound hm x (List.mem_of_mem_tail hx); omega) hb hp
+  refine ⟨by rw [psi6_eq_length]; exact hi, ?_⟩
+  rw [decode_table hD hd hi']
+  obtain ⟨a0, a1, a2, a3, a4, a5, ha⟩ := length_six hmm.1
+  rw [ha] at ht hmm ⊢
+  simp only [List.tail_cons] at ht
+  rw [← ht]
+  simp only [List.sum_cons, List.sum_nil] at hmm ⊢
+  congr 1; omega
+
+/-- `encode` answers `-1` exactly when the five stored exponents alone already exceed the degree argument -/
+theorem encode_none_iff {D d : Nat} (hD : D ≤ 63) (hd : d ≤ D) {k : List Nat} (hl : k.length = 6)
+    (hb : ∀ x ∈ k.tail, x ≤ 63) : encode (mkTables D) k d = none ↔ d < k.tail.sum := by
+  constructor
+  · intro h
+    by_contra hc
+    obtain ⟨k0, k1, k2, k3, k4, k5, rfl⟩ := length_six hl
+    simp only [List.tail_cons] at hc hb
+    have hl' : ((d - [k1, k2, k3, k4, k5].sum) :: [k1, k2, k3, k4, k5]).length = 6 := rfl
+    obtain ⟨i, _, hi, _⟩ := encode_of_degree hD hd hl' (by rw [List.sum_cons]; omega)
+    unfold encode at h hi
+    rw [pack_head_irrelevant _ k0] at hi
+    rw [hi] at h; cases h
+  · intro h
+    cases he : encode (mkTables D) k d with
+    | none => rfl
+    | some i =>
+      have := (encode_some_decode hD hd hl hb he).2
+      have hm : decode (mkTables D) i d ∈ enum 6 d := by
+        have hi := (encode_some_decode hD hd hl hb he).1
+        rw [psi6_eq_length] at hi
+        have hi' : i < (enum 6 d).length := by unfold clmoModel at hi; simpa using hi
+        rw [decode_table hD hd hi']; exact List.getElem_mem hi'
+      rw [this] at hm
+      have := ((mem_enum 6 d _).mp hm).2
+      simp only [List.sum_cons] at this
+      omega
+
+/-- out-of-range degree argument: `-1` -/
+theorem encode_degree_out_of_range {D d : Nat} (h : D < d) (k : List Nat) : encode (mkTables D) k d = none := by
+  unfold encode; rw [mkTables_length, if_neg (by omega)]
+
+
 end HitenModel.C06
